@@ -93,8 +93,10 @@ def build_corpus(tier, rng):
         cands.append(("overlap", ov))
     infos = G.classify(ID, [it for _, it in cands])
     reals = G.real_structure(ID, [it for _, it in cands])
+    # the model's description of the same code: where the two differ, a search for a distinguishing input follows (S.mismatch_search)
+    mstructs = [r[0] for r in G.model_query(ID, [it for _, it in cands], [("struct", ["EnumString"])])] if any(reals) else [None] * len(cands)
     rejected = 0
-    for (fam, it), info, real in zip(cands, infos, reals):
+    for (fam, it), info, real, mstruct in zip(cands, infos, reals, mstructs):
         if getattr(it, "overlap_family", False):
             if info is None:
                 continue
@@ -106,7 +108,7 @@ def build_corpus(tier, rng):
         for s, note in G.fromstr_inputs(it, info, rng, flipcap=(64 if thorough else 8), nrandom=(30 if thorough else 8)):
             c.add_q(k, "fromstr", [S.hx(s)], note=note)
             seen.add(s)
-        S.add_real_literal_inputs(c, k, it, real, seen)
+        S.add_real_literal_inputs(c, k, it, real, seen, model_summary=mstruct)
     c.rejected = rejected
     return c
 
